@@ -213,9 +213,12 @@ class FourierSeries:
 
     def ifft(
         self,
-        ifftn: Callable[[np.ndarray], np.ndarray] | None = None,
+        ifftn: Callable[[np.ndarray, int], np.ndarray] | None = None,
     ) -> timeseries.TimeSeries:
         """Perform 1-D complex to real inverse FFT.
+
+        The output length is the transform length recorded in the header
+        (``header.nsamples``), so odd transform lengths are inverted correctly.
 
         Parameters
         ----------
@@ -233,7 +236,7 @@ class FourierSeries:
         if not callable(ifftn):
             msg = f"Input ifftn is not callable: {ifftn}"
             raise TypeError(msg)
-        tim_ar = ifftn(self.data)
+        tim_ar = ifftn(self.data, self.header.nsamples)
         return timeseries.TimeSeries(tim_ar, self.header.new_header())
 
     def form_spec(self, *, interpolate: bool = False) -> PowerSpectrum:
